@@ -131,7 +131,7 @@ def run(module, cfg=None, workers=16, env=None, timeout=900, simulate=None, dept
             fh.write(text)
     cfg = cfg or (module + '.cfg')
     meta = os.path.join(d, 'meta')
-    jopts = ['-XX:+UseParallelGC', '-Xmx8g']
+    jopts = ['-XX:+UseParallelGC', '-Xmx8g', '-Djava.io.tmpdir=' + d]
     if dfs:
         jopts.append('-Dtlc2.tool.queue.IStateQueue=StateDeque')
     cmd = ['java'] + jopts + ['-cp', JAR + ':' + DEPS, 'tlc2.TLC', '-config', cfg, '-workers', str(workers),
@@ -184,7 +184,7 @@ def sany_all():
         if f.endswith('.tla'):
             shutil.copy(os.path.join(SPECS, f), os.path.join(d, f))
     for f in sorted(os.listdir(d)):
-        p = subprocess.run(['java', '-cp', JAR + ':' + DEPS, 'tla2sany.SANY', f], cwd=d,
+        p = subprocess.run(['java', '-Djava.io.tmpdir=' + d, '-cp', JAR + ':' + DEPS, 'tla2sany.SANY', f], cwd=d,
                            stdout=subprocess.PIPE, stderr=subprocess.STDOUT, universal_newlines=True)
         ok = p.returncode == 0 and 'rror' not in p.stdout.replace('Semantic errors:', 'Semantic errs:') or \
             ('Semantic processing of module' in p.stdout and '*** Errors' not in p.stdout and 'Abort' not in p.stdout
